@@ -33,6 +33,60 @@ DASH_STRINGS = ["-", "--", "-5", "-1.5", "--x", "--x=1", "-x", "---", "--=", "-=
                 "--?", "-??", "--??", "--help", "-h", "--h", "-help", "--source", "-source", "--help=1", "-h=", "-é", "--1x=2",
                 "--x-y=1", "--x.y=1", "-- ", " --", "--\n", "- ", "-\n"]
 
+# Hostile argument strings: text on which CPython's compile() gives up with something other than SyntaxError
+# (lone surrogates = what argv holds for undecodable bytes (PEP 383) -> UnicodeEncodeError; very long / deeply nested
+# text -> RecursionError / MemoryError; sizes are kept far from the depth-dependent thresholds), NUL, control
+# characters, BOM, line-separator look-alikes inside quoted strings, 10k-character tokens, 199/250-deep brackets.
+HOSTILE = [
+    "caf\udce9.txt", "\udcff", "\ud800", "'\udce9'", "a\udc80b c", "\udce9=1", "x\udcc3\udca9", "r'\udcfe\udcff'", "1+\udc80",
+    "a\x00b", "'\x00'", "\x00", "1\x00",
+    "\x01\x02", "\x7f", "\x1b[31m", "\x08", "1\x0c+2", "'a\x0cb'", "'a\x0bb'", "'a\u2028b'", "'a\x85b'", "'a\rb'", "\"\x1c\"",
+    "'''a\nb'''", "1\u2028+2", "'a\u2029'", "\x0b1", "1\x1d", "'\x1e\x1f'", "\"a\x0c\x0b\u2028b\"", "(1,\x0c2)",
+    "\ufeff1+2", "'\ufeff'", "\ufeff", "\ufeff'x'",
+    "x" * 10000, "'" + "y" * 10000 + "'", "9" * 10000, "a b " * 2500, "1" + "+x1" * 5000, "not " * 5000 + "x",
+    "~" * 5000 + "1", "~" * 9000 + "1", "2**" * 5000 + "2", "a" + ".b" * 5000, "a" + "[0]" * 5000, "+" * 5000 + "1",
+    "not " * 800 + "x", "~" * 1000 + "1", "a" + ".b" * 1000, "1" + "+x1" * 800, "1" + "<2" * 3000, "'a' " * 3000,
+    "(" * 199 + "1" + ")" * 199, "(" * 250 + "1" + ")" * 250, "[" * 200 + "]" * 200, "[" * 3000 + "]" * 3000,
+    "{" * 150 + "}" * 150, "f(" * 150 + ")" * 150, "f(" * 300 + ")" * 300, "lambda: " * 500 + "0", "1 if 2 else " * 500 + "3",
+    "[" * 150 + "'\udce9'" + "]" * 150,
+]
+HOSTILE_DASH = ["-" * 5000 + "1", "-" * 9000 + "1", "-\udce9", "--\udce9=1", "-x\x00", "--x=\ufeff"]
+
+
+def gen_hostile(rng, dash_ok=False):
+    if dash_ok and rng.random() < 0.1:
+        return rng.choice(HOSTILE_DASH)
+    return rng.choice(HOSTILE)
+
+
+def hostile_scope(tier, rng):
+    """Every hostile string in every argument position (positional, `--k=v`, `--k v`, after `--`), next to evaluable
+    neighbours, in auto mode (all) and in string / eval mode (a sample)."""
+    sig = dict(args=["a", "b"], ndefaults=1, varargs="rest", kwonly=["key"], kwdefaults=["key"], varkw="kw")
+    out = []
+    strings = HOSTILE + HOSTILE_DASH
+    for h in strings:
+        placements = []
+        if not h.startswith("-"):
+            placements.append([["pos", "2+3"], ["pos", h], ["pos", "None"]])
+        if h != "":
+            placements.append([["pos", "2+3"], ["opt", "--k=v", "key", h]])
+            placements.append([["opt", "-k=v", "zz", h], ["pos", "x y"]])
+        if not h.startswith("--"):
+            placements.append([["pos", "1"], ["opt", "--k v", "b", h]])
+        placements.append([["pos", "1"], ["dd", [h, "2+3"]]])
+        if tier != "thorough":
+            placements = rng.sample(placements, min(2, len(placements)))
+        for items in placements:
+            modes = ["auto"] if tier != "thorough" else MODES
+            if tier != "thorough" and rng.random() < 0.25:
+                modes = ["auto", rng.choice(["string", "eval"])]
+            for mode in modes:
+                out.append(dict(kind="parse", sig=sig, items=items, argv=render(items), mode=mode, stdin=h,
+                                unimportable=["x y"], evalerr=[]))
+    return out
+
+
 MODES = ["string", "eval", "auto"]
 FORMS = ["--k=v", "--k v", "-k v", "-k=v"]
 HELP_TOKENS = ["--?", "-?", "?", "--??", "-??", "??"]
@@ -72,6 +126,8 @@ def sig_names(sig):
 
 
 def gen_string(rng, dash_ok=True):
+    if rng.random() < 0.04:
+        return gen_hostile(rng, dash_ok)
     r = rng.random()
     if r < 0.62:
         return rng.choice(STRINGS)
